@@ -314,6 +314,63 @@ pub fn generate(repo: &PathBuf) -> Result<String, String> {
     let put_public = encrypts_caller_bytes(impl_fn(&data_pub, "Client", None, "data_put_public")?, &format!("{rel_public}:data_put_public"))?;
     let cost = encrypts_caller_bytes(impl_fn(&data_pub, "Client", None, "data_cost")?, &format!("{rel_public}:data_cost"))?;
 
+    // ---- what the put entry points upload: the argument of their single `upload_chunks_with_retries(..)` call
+    struct UploadArgs(Vec<String>);
+    impl<'ast> Visit<'ast> for UploadArgs {
+        fn visit_expr_method_call(&mut self, m: &'ast syn::ExprMethodCall) {
+            if m.method == "upload_chunks_with_retries" {
+                self.0.push(m.args.first().map(|a| norm(a)).unwrap_or_default());
+            }
+            syn::visit::visit_expr_method_call(self, m);
+        }
+    }
+    let upload_arg = |f: &syn::ImplItemFn, what: &str| -> Result<String, String> {
+        let mut v = UploadArgs(vec![]);
+        v.visit_block(&f.block);
+        match v.0.as_slice() {
+            [a] => Ok(a.clone()),
+            other => Err(format!("{what}: expected one call of upload_chunks_with_retries, found {}", other.len())),
+        }
+    };
+    // `let (data_map_chunk, chunks) = encrypt(data)?;` names what is uploaded
+    let binds_encrypt = |f: &syn::ImplItemFn| norm(&f.block).contains("let(data_map_chunk,chunks)=encrypt(data)?;");
+    let f_put = impl_fn(&data_mod, "Client", None, "data_put")?;
+    let f_put_public = impl_fn(&data_pub, "Client", None, "data_put_public")?;
+    if !binds_encrypt(f_put) || !binds_encrypt(f_put_public) {
+        return Err(format!("{rel_data}/{rel_public}: the put entry points do not bind `let (data_map_chunk, chunks) = encrypt(data)?`"));
+    }
+    let put_uploads_chunks = match upload_arg(f_put, &format!("{rel_data}:data_put"))?.as_str() {
+        "chunks.iter().collect()" => true,
+        other => return Err(format!("{rel_data}:data_put: uploads `{other}`, not `chunks.iter().collect()`")),
+    };
+    let (public_uploads_chunks, public_uploads_data_map) = match upload_arg(f_put_public, &format!("{rel_public}:data_put_public"))?.as_str() {
+        "chunks.iter().chain(std::iter::once(&data_map_chunk)).collect()" | "std::iter::once(&data_map_chunk).chain(chunks.iter()).collect()" => (true, true),
+        "chunks.iter().collect()" => (true, false),
+        "std::iter::once(&data_map_chunk).collect()" | "vec![&data_map_chunk]" => (false, true),
+        other => return Err(format!("{rel_public}:data_put_public: uploads `{other}`: neither all chunks nor all chunks + the data-map chunk")),
+    };
+    // `upload_chunks_with_retries`: the only way a chunk handed in is not PUT is the missing receipt entry
+    let ucr = impl_fn(&data_pub, "Client", None, "upload_chunks_with_retries")?;
+    let ucr_s = norm(&ucr.block);
+    let skip = "letSome((proof,_))=receipt.get(chunk.name())else{";
+    let upload_skips_only_unpaid = if ucr_s.contains("forchunkinchunks{") && ucr_s.matches(skip).count() == 1 && ucr_s.matches("continue").count() == 1
+        && ucr_s.contains(".chunk_upload_with_payment(chunk,proof.clone())") && !ucr_s.contains("break")
+    {
+        true
+    } else {
+        return Err(format!("{rel_public}:upload_chunks_with_retries: unexpected shape (skips other than the missing receipt entry?)"));
+    };
+    // `chunk_upload_with_payment`: the record is keyed by the chunk's own address and carries the chunk itself
+    let cup = impl_fn(&utils, "Client", None, "chunk_upload_with_payment")?;
+    let cup_s = norm(&cup.block);
+    let put_record_is_chunk = if cup_s.contains("letkey=chunk.network_address().to_record_key();") && cup_s.contains("letrecord_kind=RecordKind::ChunkWithPayment;")
+        && cup_s.contains("key:key.clone(),value:try_serialize_record(&(payment,chunk.clone()),record_kind)") && cup_s.contains("self.network.put_record(record,&put_cfg)")
+    {
+        true
+    } else {
+        return Err(format!("{rel_utils}:chunk_upload_with_payment: unexpected shape (record key / value)"));
+    };
+
     // one download task per data-map entry: the `for info in data_map.infos()` body is the single `download_tasks.push(..)`
     struct ForInfos(Option<syn::ExprForLoop>);
     impl<'ast> Visit<'ast> for ForInfos {
@@ -354,6 +411,14 @@ pub fn generate(repo: &PathBuf) -> Result<String, String> {
     s.push_str(&format!("def dataPutEncryptsCallerBytes : Bool := {}\n", lean_bool(put_private)));
     s.push_str(&format!("def dataPutPublicEncryptsCallerBytes : Bool := {}\n", lean_bool(put_public)));
     s.push_str(&format!("def dataCostEncryptsCallerBytes : Bool := {}\n", lean_bool(cost)));
+    s.push_str("/-- what the put entry points hand to `upload_chunks_with_retries`: `data_put` all chunks `encrypt` returned; `data_put_public` all of them and the data-map chunk -/\n");
+    s.push_str(&format!("def dataPutUploadsChunks : Bool := {}\n", lean_bool(put_uploads_chunks)));
+    s.push_str(&format!("def dataPutPublicUploadsChunks : Bool := {}\n", lean_bool(public_uploads_chunks)));
+    s.push_str(&format!("def dataPutPublicUploadsDataMap : Bool := {}\n", lean_bool(public_uploads_data_map)));
+    s.push_str("/-- `upload_chunks_with_retries` PUTs every chunk it is handed except those the receipt has no entry for (its loop has no other skip) -/\n");
+    s.push_str(&format!("def uploadSkipsOnlyUnpaid : Bool := {}\n", lean_bool(upload_skips_only_unpaid)));
+    s.push_str("/-- `chunk_upload_with_payment` PUTs a `ChunkWithPayment` record keyed by the chunk's own address whose value holds the chunk unchanged -/\n");
+    s.push_str(&format!("def putRecordIsChunkUnderOwnAddress : Bool := {}\n", lean_bool(put_record_is_chunk)));
     s.push_str("/-- `fetch_from_data_map` pushes one download task for every entry of `data_map.infos()` (its loop body has no `continue` / conditional skip) -/\n");
     s.push_str(&format!("def fetchRequestsEveryInfo : Bool := {}\n", lean_bool(every_info)));
     // ---- the size of record a node stores (ant-networking/src/driver.rs): `max_value_bytes: MAX_PACKET_SIZE`
